@@ -334,6 +334,23 @@ func checkC09(c *gen.WPlusCase) Outcome {
 		} else {
 			out.Labels = append(out.Labels, "wplus:nil")
 		}
+		// W+ bundles: the success oracles are not claimed, but every load fault must still end in an
+		// error or a normal return, never in a panic, crash or hang
+		if c.RawRoot == "" {
+			for k := 1; k <= r.resp.Loads; k++ {
+				k := k
+				rf := runFlatten(fc, docs, func(req *wproto.Request) { req.FaultK, req.FaultSticky = k, k%2 == 0 })
+				if rf.harness != "" {
+					out.Harness = rf.harness
+					return out
+				}
+				count("fault_points_wplus", 1)
+				if ab := abnormalEnd(rf); ab != "" {
+					out.Fail = fmt.Sprintf("Flatten of a W+ bundle with load #%d of %d failing did not end normally: %s%s", k, r.resp.Loads, ab, describe(fc, nil))
+					return out
+				}
+			}
+		}
 		return out
 	}
 	if r.resp.Err != "" {
